@@ -32,6 +32,7 @@ func falseEdgeStarts(fx *Facts, call *ssa.Call) []cfgPos {
 
 func runC03(c *Ctx) {
 	p, fx := c.P, c.Fx
+	runC03Ready(c)
 	stmtAlloc := p.Func(pkgFramework, "Statement", "Allocate")
 	stmtPipe := p.Func(pkgFramework, "Statement", "Pipeline")
 	checkpoint := c.Anchor("O1", pkgFramework, "Statement", "Checkpoint")
@@ -394,4 +395,38 @@ func (p *Prog) InvokeSitesOrStatic(name string) []ssa.CallInstruction {
 		}
 	}
 	return out
+}
+
+// runC03Ready (O6): a pod set is offered for scheduling only when it has enough *alive*, ungated pods to reach its
+// minimum — leftover Failed/Succeeded/terminating pod objects must not make up the difference, or an
+// under-populated gang is admitted and the pending pods it has are bound below the minimum.
+func runC03Ready(c *Ctx) {
+	fx := c.Fx
+	fn := c.Anchor("O6", "pkg/scheduler/api/podgroup_info/subgroup_info", "PodSet", "IsReadyForScheduling")
+	if fn == nil {
+		return
+	}
+	paths := fx.retPaths(fn, 0, WantTrue)
+	for i, rp := range paths {
+		_, ok := hasFact(rp.Facts, func(f Fact) bool {
+			t := f.T
+			if t.Op != "bin" || len(t.Args) != 2 {
+				return false
+			}
+			a, b := t.Args[0], t.Args[1]
+			alive := func(x *Term) bool {
+				return x.contains(func(y *Term) bool { return isCallNamed(y, "GetNumAliveTasks") }) && !x.contains(func(y *Term) bool { return isCallNamed(y, "GetPodInfos") })
+			}
+			min := func(x *Term) bool { return strings.Contains(x.String(), "minAvailable") || isCallNamed(x, "GetMinAvailable") }
+			switch {
+			case alive(a) && min(b):
+				return (t.Name == "<" && !f.Pol) || (t.Name == ">=" && f.Pol)
+			case min(a) && alive(b):
+				return (t.Name == ">" && !f.Pol) || (t.Name == "<=" && f.Pol)
+			}
+			return false
+		})
+		c.Check(ok, "O6", "RET", fmt.Sprintf("%s true path#%d: alive − gated ≥ minAvailable", funcKey(fn), i), rp.Pos, "counts alive pods", "a pod set counts as ready for scheduling without enough alive, ungated pods to reach minAvailable (e.g. every pod object is counted): a leftover Failed pod lets an under-populated gang through and its pending pods are bound below the minimum")
+	}
+	c.Floor("O6", "RET ready paths", len(paths), 1)
 }
